@@ -261,3 +261,114 @@ let c17 ?(model : c17_model option) (path : ostring) (mm : ostring) : unit =
   let cls = Hashtbl.fold (fun k v acc -> Printf.sprintf "\"%s\":%d" (json_escape k) v :: acc) classes [] in
   Printf.printf "{\"cases\":%d,\"gen_mismatch\":%d,\"spec_violation\":%d,\"classes\":{%s}}\n"
     !n !bad_gen !bad_spec (Stdlib.String.concat "," (List.sort compare cls))
+
+(* ---- C14 ---- replay of natsdiff traces (outcomes of the REAL adapter) on Store.v *)
+let c14 (path : ostring) (mm : ostring) : unit =
+  let oc = open_out mm in
+  let nseq = ref 0 and nops = ref 0 and bad = ref 0 in
+  let classes = Hashtbl.create 16 in
+  let bump k = Hashtbl.replace classes k (1 + try Hashtbl.find classes k with Not_found -> 0) in
+  let st = ref empty_store in
+  let seqno = ref "" in
+  let seq_lines = Buffer.create 1024 in
+  let seq_bad = ref false in
+  let wmap : (ostring, nat) Hashtbl.t = Hashtbl.create 8 in
+  let rec nat_of_int n = if n <= 0 then O else S (nat_of_int (n - 1)) in
+  let key k = coqstring_of_string ("k" ^ k) in
+  let kind_s = function KOk -> "ok" | KKeyExists -> "keyexists" | KWrongLastSeq -> "wronglastseq" | KNotFound -> "notfound" in
+  let fail line why =
+    if not !seq_bad then begin
+      seq_bad := true; incr bad;
+      if !bad <= max_report then
+        Printf.fprintf oc "SPEC seq=%s step=[%s] history=[%s] | %s\n" !seqno line (Buffer.contents seq_lines) why
+    end in
+  iter_lines path (fun _ line ->
+      let f = fields line in
+      if Array.length f > 0 then begin
+        (match f.(0) with
+         | "S" -> incr nseq; st := empty_store; seqno := f.(1); Buffer.clear seq_lines; seq_bad := false; Hashtbl.clear wmap
+         | "E" -> ()
+         | "C" ->
+           incr nops;
+           let (s', r) = sstep !st (OCreate (key f.(1), coqstring_of_string (unhex f.(2)))) in
+           st := s';
+           (match r with
+            | RKV o ->
+              bump ("create/" ^ kind_s o.o_kind);
+              if kind_s o.o_kind <> f.(3) || (o.o_kind = KOk && string_of_coqz o.o_rev <> f.(4)) then
+                fail line (Printf.sprintf "Create: adapter %s rev %s, contract %s rev %s" f.(3) f.(4) (kind_s o.o_kind) (string_of_coqz o.o_rev))
+            | _ -> fail line "model error")
+         | "U" ->
+           incr nops;
+           let (s', r) = sstep !st (OUpdate (key f.(1), coqstring_of_string (unhex f.(2)), coqz_of_string f.(3))) in
+           st := s';
+           (match r with
+            | RKV o ->
+              bump ("update/" ^ kind_s o.o_kind);
+              if kind_s o.o_kind <> f.(4) || (o.o_kind = KOk && string_of_coqz o.o_rev <> f.(5)) then
+                fail line (Printf.sprintf "Update: adapter %s rev %s, contract %s rev %s" f.(4) f.(5) (kind_s o.o_kind) (string_of_coqz o.o_rev))
+            | _ -> fail line "model error")
+         | "G" ->
+           incr nops;
+           let (_, r) = sstep !st (OGet (key f.(1))) in
+           (match r with
+            | RKV o ->
+              bump ("get/" ^ kind_s o.o_kind);
+              if kind_s o.o_kind <> f.(2) || (o.o_kind = KOk && (string_of_coqz o.o_rev <> f.(3) || hex (string_of_coqstring o.o_val) <> f.(4))) then
+                fail line (Printf.sprintf "Get: adapter %s %s %s, contract %s %s %s" f.(2) f.(3) f.(4) (kind_s o.o_kind) (string_of_coqz o.o_rev) (hex (string_of_coqstring o.o_val)))
+            | _ -> fail line "model error")
+         | "D" ->
+           incr nops;
+           let (s', r) = sstep !st (ODelete (key f.(1))) in
+           st := s';
+           bump "delete";
+           if f.(2) <> "ok" then fail line ("Delete: adapter " ^ f.(2) ^ ", contract ok")
+         | "X" -> incr nops; bump "expire"; let (s', _) = sstep !st (OExpire (key f.(1))) in st := s'
+         | "WO" ->
+           incr nops; bump "watch-open";
+           let (s', r) = sstep !st (OWatch (key f.(2))) in
+           st := s';
+           (match r with RWatch i -> Hashtbl.replace wmap f.(1) i | _ -> fail line "model error")
+         | "WD" ->
+           incr nops;
+           let i = (try Hashtbl.find wmap f.(1) with Not_found -> O) in
+           let n = int_of_string f.(2) in
+           for j = 0 to n - 1 do
+             let got = f.(3 + j) in
+             let (s', r) = sstep !st (OPop i) in
+             st := s';
+             let exp = (match r with
+                 | RPop (Some None) -> "nil"
+                 | RPop (Some (Some (rev, v))) -> string_of_coqz rev ^ ":" ^ hex (string_of_coqstring v)
+                 | RPop None -> "<nothing>"
+                 | _ -> "<bad>") in
+             bump (if got = "nil" then "watch-entry/nil-marker" else "watch-entry/value");
+             if exp <> got then fail line (Printf.sprintf "watch entry %d: adapter delivered %s, contract %s" j got exp)
+           done;
+           (* after a drain the contract has nothing more to deliver: every change was delivered *)
+           (match sstep !st (OPop i) with
+            | (_, RPop None) -> ()
+            | (_, RPop (Some e)) ->
+              let miss = (match e with None -> "nil" | Some (rev, _) -> string_of_coqz rev) in
+              (match Hashtbl.find_opt wmap ("stopped" ^ f.(1)) with
+               | Some _ -> ()
+               | None -> fail line (Printf.sprintf "watch: the adapter did not deliver entry %s (every change must be delivered once)" miss))
+            | _ -> ())
+         | "WL" ->
+           let i = (try Hashtbl.find wmap f.(1) with Not_found -> O) in
+           bump "watch-conflated";
+           let (s', r) = sstep !st (ODrop (i, coqz_of_string f.(2))) in
+           st := s';
+           if r = RBad then fail line "conflation of the newest pending revision (never legal)"
+         | "WS" ->
+           incr nops; bump "watch-stop";
+           let i = (try Hashtbl.find wmap f.(1) with Not_found -> O) in
+           Hashtbl.replace wmap ("stopped" ^ f.(1)) O;
+           let (s', _) = sstep !st (OStop i) in st := s'
+         | _ -> ());
+        if f.(0) <> "S" && f.(0) <> "E" then begin Buffer.add_string seq_lines line; Buffer.add_string seq_lines "; " end
+      end);
+  close_out oc;
+  let cls = Hashtbl.fold (fun k v acc -> Printf.sprintf "\"%s\":%d" (json_escape k) v :: acc) classes [] in
+  Printf.printf "{\"cases\":%d,\"ops\":%d,\"spec_violation\":%d,\"classes\":{%s}}\n"
+    !nseq !nops !bad (Stdlib.String.concat "," (List.sort compare cls))
